@@ -239,3 +239,77 @@ theorem bucket_of_build (hf : HF) (vs declared : Nat) (m : List (Bytes × Bytes)
   simpa using e
 
 end CI
+
+namespace CI
+open B
+
+/-! ### insertion-order independence -/
+
+theorem sorted_eq_of_perm (l l' : List Ent) (hp : l.Perm l')
+    (hd : adjDup (l.mergeSort leEnt) = false) : l.mergeSort leEnt = l'.mergeSort leEnt ∧ adjDup (l'.mergeSort leEnt) = false := by
+  have hp2 : (l.mergeSort leEnt).Perm (l'.mergeSort leEnt) :=
+    (List.mergeSort_perm l leEnt).trans (hp.trans (List.mergeSort_perm l' leEnt).symm)
+  have hs1 := strict_of_adjDup_false _ (sorted_pairwise l) hd
+  have hd' : adjDup (l'.mergeSort leEnt) = false := by
+    cases h : adjDup (l'.mergeSort leEnt) with
+    | false => rfl
+    | true =>
+      have hn := (adjDup_iff _ (sorted_pairwise l')).mp h
+      have : ((l.mergeSort leEnt).map (·.1)).Nodup := strict_nodup _ hs1
+      exact absurd ((hp2.map _).nodup_iff.mp this) hn
+  have hs2 := strict_of_adjDup_false _ (sorted_pairwise l') hd'
+  refine ⟨?_, hd'⟩
+  exact List.Perm.eq_of_pairwise (le := fun a b => a.1 < b.1) (fun a b _ _ h1 h2 => by omega) hs1 hs2 hp2
+
+theorem adjDup_perm (l l' : List Ent) (hp : l.Perm l') :
+    adjDup (l.mergeSort leEnt) = adjDup (l'.mergeSort leEnt) := by
+  cases h : adjDup (l.mergeSort leEnt) with
+  | false => exact (sorted_eq_of_perm l l' hp h).2.symm
+  | true =>
+    cases h' : adjDup (l'.mergeSort leEnt) with
+    | true => rfl
+    | false =>
+      have := (sorted_eq_of_perm l' l hp.symm h').2
+      rw [h] at this; cases this
+
+theorem mineFrom_perm (hf : HF) (kvs kvs' : List KV) (hp : kvs.Perm kvs') :
+    ∀ f nonce, mineFrom hf kvs f nonce = mineFrom hf kvs' f nonce := by
+  intro f
+  induction f with
+  | zero => intro nonce; rfl
+  | succ f ih =>
+    intro nonce
+    have hph : (hashed hf nonce kvs).Perm (hashed hf nonce kvs') := hp.map _
+    simp only [mineFrom]
+    rw [adjDup_perm _ _ hph]
+    cases hd : adjDup ((hashed hf nonce kvs').mergeSort leEnt) with
+    | true => simp only [if_true]; exact ih (nonce+1)
+    | false =>
+      have hd0 : adjDup ((hashed hf nonce kvs).mergeSort leEnt) = false := by rw [adjDup_perm _ _ hph]; exact hd
+      simp only [Bool.false_eq_true, if_false]
+      rw [(sorted_eq_of_perm _ _ hph hd0).1]
+
+theorem sealBucket_perm (hf : HF) (kvs kvs' : List KV) (hp : kvs.Perm kvs') : sealBucket hf kvs = sealBucket hf kvs' := by
+  unfold sealBucket mine
+  rw [mineFrom_perm hf kvs kvs' hp]
+
+theorem any_perm {α : Type} (p : α → Bool) (l l' : List α) (hp : l.Perm l') : l.any p = l'.any p := by
+  rw [Bool.eq_iff_iff, List.any_eq_true, List.any_eq_true]
+  constructor
+  · rintro ⟨x, hx, h⟩; exact ⟨x, hp.mem_iff.mp hx, h⟩
+  · rintro ⟨x, hx, h⟩; exact ⟨x, hp.mem_iff.mpr hx, h⟩
+
+/-- the sealed index does not depend on the order of the inserts -/
+theorem buildA_perm (hf : HF) (vs declared : Nat) (m : List (Bytes × Bytes)) (kvs kvs' : List KV) (hp : kvs.Perm kvs') :
+    buildA hf vs declared m kvs = buildA hf vs declared m kvs' := by
+  unfold buildA
+  have h1 := any_perm (fun kv => (hf.bucket kv.key (numBucketsFor declared)).isNone) kvs kvs' hp
+  have h3 : ((List.range (numBucketsFor declared)).map fun i => sealBucket hf (bucketKVs hf (numBucketsFor declared) kvs i))
+       = ((List.range (numBucketsFor declared)).map fun i => sealBucket hf (bucketKVs hf (numBucketsFor declared) kvs' i)) := by
+    apply List.map_congr_left
+    intro i _
+    exact sealBucket_perm hf _ _ (hp.filter _)
+  simp only [h1, h3]
+  rw [any_perm _ kvs kvs' hp]
+
+end CI
